@@ -669,8 +669,13 @@ class Node:
             # If creating an inherited node, use the parent class as constructor
             child_class = child.__class__
 
+            # A copy references the same data under the same data_id (which may
+            # be an explicit one, i.e. differ from `calc_data_id(data)`)
             node = child_class(
-                source_node.data, parent=self, data_id=data_id, node_id=node_id
+                source_node.data,
+                parent=self,
+                data_id=source_node._data_id,
+                node_id=node_id,
             )
         else:
             node = factory(child, parent=self, data_id=data_id, node_id=node_id)
